@@ -374,15 +374,18 @@ def exec_while(interp, node, frame):
     fname = interp.current_function_name()
     modified, _ = _check_frame(spec, node)
     label = '%s : loop#%s' % (fname, ordinal)
+    # `entry=`: a snapshot taken at loop entry, `_entry` in the invariant (as for `for` loops)
+    ent = {'_entry': _call_pred(interp, spec.entry, _env_of(interp, frame, {}))} \
+        if getattr(spec, 'entry', None) else {}
     # (1) invariant on entry
-    inv0 = interp.truth(_call_pred(interp, spec.invariant, _env_of(interp, frame, {}),
+    inv0 = interp.truth(_call_pred(interp, spec.invariant, _env_of(interp, frame, ent),
                                    proving=(label + ' invariant[entry]', {'kind': 'loop-entry'})))
     _oblige_conjuncts(st, label + ' invariant[entry]', inv0, {'kind': 'loop-entry'})
     which = st.choose(2)
     declared_fields = _havoc(interp, frame, spec, modified, 'L%s' % ordinal)
     from . import strings as _strings
     _strings.forget_dead_pieces(interp)
-    inv = interp.truth(_call_pred(interp, spec.invariant, _env_of(interp, frame, {}), assumed=True))
+    inv = interp.truth(_call_pred(interp, spec.invariant, _env_of(interp, frame, ent), assumed=True))
     st.assume(inv)
     guard = interp.eval(node.test, frame)
     if which == 0:
@@ -410,7 +413,7 @@ def exec_while(interp, node, frame):
             if r[0] == 'break':
                 return None
             return r
-        inv2 = interp.truth(_call_pred(interp, spec.invariant, _env_of(interp, frame, {}),
+        inv2 = interp.truth(_call_pred(interp, spec.invariant, _env_of(interp, frame, ent),
                                        proving=(label + ' invariant[preserved]', {'kind': 'loop-preserve'})))
         _oblige_conjuncts(st, label + ' invariant[preserved]', inv2, {'kind': 'loop-preserve'})
         if dec0 is not None:
